@@ -688,6 +688,9 @@ class ForEachTrace:
                     if kind != "raise":
                         raise Unsupported("for-each body leaves the loop")
                     continue
+                s2.labels = s2.labels + [self.name]
+                cover(s2, "some path reaches the end of the for-each body")
+                s2.labels = s2.labels[:-1]
                 allowed = set()
                 for mk in self.modifies:
                     allowed |= {mk, mk + "?"}
